@@ -170,12 +170,14 @@ func (s *Storer) DelRunId(id string) error {
 func (s *Storer) resetDataSet() {
 	s.logger.Debugf("Storer reset dataset : %s", s.dir)
 
-	s.dataSetMux.Lock()
-	defer s.dataSetMux.Unlock()
-	ra := s.dataSet
+	// close readers and writers without holding dataSetMux : a reader polling for new data
+	// holds its own mutex while it asks the storer for the last segment (getDataSet)
+	ra := s.getDataSet()
 	if ra != nil {
 		ra.Close()
 	}
+	s.dataSetMux.Lock()
+	defer s.dataSetMux.Unlock()
 
 	filepath.Walk(s.dir, func(path string, info os.FileInfo, err error) error {
 		if err != nil {
